@@ -392,6 +392,46 @@ GLASSO_FAULTS = ["raise_fpe", "raise_linalg", "raise_value", "nan", "inf",
                  "neginf", "indefinite", "indefinite_even", "slightly_negative", "all_nan"]
 
 
+# ------------------------------------------------------------------- LDA seam
+
+class LdaSeam(object):
+  """Rebinds the module-level name LinearDiscriminantAnalysis inside
+  metric_learn.scml: the local LDA fits of SCML_Supervised's 'lda' basis.  In
+  fault mode the k-th fit raises LinAlgError (what scikit-learn's LDA does on a
+  degenerate local region).  Missing name => fault kind switched off."""
+
+  def __init__(self, fail_at=None):
+    self.fail_at = fail_at
+    self.calls = 0
+    self.fired = 0
+    self.mod = sys.modules.get("metric_learn.scml")
+    self.missing = self.mod is None or not hasattr(self.mod, "LinearDiscriminantAnalysis")
+    self.orig = None
+
+  def __enter__(self):
+    if self.missing:
+      return self
+    seam = self
+    self.orig = self.mod.LinearDiscriminantAnalysis
+
+    class FaultyLDA(self.orig):
+      def fit(self_, X, y, *a, **k):
+        i = seam.calls
+        seam.calls += 1
+        if seam.fail_at is not None and i == seam.fail_at:
+          seam.fired += 1
+          raise np.linalg.LinAlgError("simulated: SVD did not converge")
+        return seam.orig.fit(self_, X, y, *a, **k)
+    FaultyLDA.__name__ = "LinearDiscriminantAnalysis"
+    self.mod.LinearDiscriminantAnalysis = FaultyLDA
+    return self
+
+  def __exit__(self, *exc):
+    if not self.missing:
+      self.mod.LinearDiscriminantAnalysis = self.orig
+    return False
+
+
 # ------------------------------------------------------------------ clock seam
 
 class SimClock(object):
